@@ -192,3 +192,78 @@ package j5schema
 //@   frame fresh E:*github.com/pentops/j5/lib/j5schema.ObjectProperty
 //@ func (*Package).buildSchema
 //@   frame fresh E:*github.com/pentops/j5/lib/j5schema.ObjectProperty
+
+// ---- schema read back equals the source (C04): integer rules and list rules --------------------------
+// The reader side of the integer rule round trip (the writer side is j5convert.buildField, C12): a strict
+// buf.validate bound reads back as the number with the exclusive flag set, an inclusive one as the number
+// with the flag unset or false; the list rules come from the arm of the list annotation that matches
+// the field's own kind.
+//@ import list_j5pb "github.com/pentops/j5/gen/j5/list/v1/list_j5pb"
+//@ spec func intOut(r schema_j5pb.IsField_Type) *schema_j5pb.IntegerField = as(*schema_j5pb.Field_Integer, r).Integer
+//@ spec func flagSet(b *bool) bool = b != nil && *b
+//@ spec func vInt32(e protoFieldExtensions) *validate.Int32Rules = e.validate != nil && typeis(e.validate.Type, *validate.FieldConstraints_Int32) ? as(*validate.FieldConstraints_Int32, e.validate.Type).Int32 : nil
+//@ spec func lInt32(e protoFieldExtensions) *list_j5pb.IntegerRules = e.list != nil && typeis(e.list.Type, *list_j5pb.FieldConstraint_Int32) ? as(*list_j5pb.FieldConstraint_Int32, e.list.Type).Int32 : nil
+//@ spec func vInt64(e protoFieldExtensions) *validate.Int64Rules = e.validate != nil && typeis(e.validate.Type, *validate.FieldConstraints_Int64) ? as(*validate.FieldConstraints_Int64, e.validate.Type).Int64 : nil
+//@ spec func lInt64(e protoFieldExtensions) *list_j5pb.IntegerRules = e.list != nil && typeis(e.list.Type, *list_j5pb.FieldConstraint_Int64) ? as(*list_j5pb.FieldConstraint_Int64, e.list.Type).Int64 : nil
+//@ spec func vUint32(e protoFieldExtensions) *validate.UInt32Rules = e.validate != nil && typeis(e.validate.Type, *validate.FieldConstraints_Uint32) ? as(*validate.FieldConstraints_Uint32, e.validate.Type).Uint32 : nil
+//@ spec func lUint32(e protoFieldExtensions) *list_j5pb.IntegerRules = e.list != nil && typeis(e.list.Type, *list_j5pb.FieldConstraint_Uint32) ? as(*list_j5pb.FieldConstraint_Uint32, e.list.Type).Uint32 : nil
+//@ spec func vUint64(e protoFieldExtensions) *validate.UInt64Rules = e.validate != nil && typeis(e.validate.Type, *validate.FieldConstraints_Uint64) ? as(*validate.FieldConstraints_Uint64, e.validate.Type).Uint64 : nil
+//@ spec func lUint64(e protoFieldExtensions) *list_j5pb.IntegerRules = e.list != nil && typeis(e.list.Type, *list_j5pb.FieldConstraint_Uint64) ? as(*list_j5pb.FieldConstraint_Uint64, e.list.Type).Uint64 : nil
+//@ func buildScalarType
+//@   ensures int32.shape: result1 == nil && (fdKind(src) == 5 || fdKind(src) == 17) ==> typeis(result0, *schema_j5pb.Field_Integer) && as(*schema_j5pb.Field_Integer, result0) != nil && intOut(result0) != nil && intOut(result0).Format == schema_j5pb.IntegerField_FORMAT_INT32
+//@   ensures int32.list: result1 == nil && (fdKind(src) == 5 || fdKind(src) == 17) ==> intOut(result0).ListRules == lInt32(ext)
+//@   ensures int32.norules: result1 == nil && (fdKind(src) == 5 || fdKind(src) == 17) && vInt32(ext) == nil ==> intOut(result0).Rules == nil
+//@   ensures int32.max.strict: result1 == nil && (fdKind(src) == 5 || fdKind(src) == 17) && vInt32(ext) != nil && typeis(vInt32(ext).LessThan, *validate.Int32Rules_Lt) ==> intOut(result0).Rules != nil && intOut(result0).Rules.Maximum != nil && *intOut(result0).Rules.Maximum == int64(as(*validate.Int32Rules_Lt, vInt32(ext).LessThan).Lt) && flagSet(intOut(result0).Rules.ExclusiveMaximum)
+//@   ensures int32.max.incl: result1 == nil && (fdKind(src) == 5 || fdKind(src) == 17) && vInt32(ext) != nil && typeis(vInt32(ext).LessThan, *validate.Int32Rules_Lte) ==> intOut(result0).Rules != nil && intOut(result0).Rules.Maximum != nil && *intOut(result0).Rules.Maximum == int64(as(*validate.Int32Rules_Lte, vInt32(ext).LessThan).Lte) && !flagSet(intOut(result0).Rules.ExclusiveMaximum)
+//@   ensures int32.max.none: result1 == nil && (fdKind(src) == 5 || fdKind(src) == 17) && vInt32(ext) != nil && vInt32(ext).LessThan == nil ==> intOut(result0).Rules != nil && intOut(result0).Rules.Maximum == nil
+//@   ensures int32.min.strict: result1 == nil && (fdKind(src) == 5 || fdKind(src) == 17) && vInt32(ext) != nil && typeis(vInt32(ext).GreaterThan, *validate.Int32Rules_Gt) ==> intOut(result0).Rules != nil && intOut(result0).Rules.Minimum != nil && *intOut(result0).Rules.Minimum == int64(as(*validate.Int32Rules_Gt, vInt32(ext).GreaterThan).Gt) && flagSet(intOut(result0).Rules.ExclusiveMinimum)
+//@   ensures int32.min.incl: result1 == nil && (fdKind(src) == 5 || fdKind(src) == 17) && vInt32(ext) != nil && typeis(vInt32(ext).GreaterThan, *validate.Int32Rules_Gte) ==> intOut(result0).Rules != nil && intOut(result0).Rules.Minimum != nil && *intOut(result0).Rules.Minimum == int64(as(*validate.Int32Rules_Gte, vInt32(ext).GreaterThan).Gte) && !flagSet(intOut(result0).Rules.ExclusiveMinimum)
+//@   ensures int32.min.none: result1 == nil && (fdKind(src) == 5 || fdKind(src) == 17) && vInt32(ext) != nil && vInt32(ext).GreaterThan == nil ==> intOut(result0).Rules != nil && intOut(result0).Rules.Minimum == nil
+//@   ensures int64.shape: result1 == nil && (fdKind(src) == 3 || fdKind(src) == 18) ==> typeis(result0, *schema_j5pb.Field_Integer) && as(*schema_j5pb.Field_Integer, result0) != nil && intOut(result0) != nil && intOut(result0).Format == schema_j5pb.IntegerField_FORMAT_INT64
+//@   ensures int64.list: result1 == nil && (fdKind(src) == 3 || fdKind(src) == 18) ==> intOut(result0).ListRules == lInt64(ext)
+//@   ensures int64.norules: result1 == nil && (fdKind(src) == 3 || fdKind(src) == 18) && vInt64(ext) == nil ==> intOut(result0).Rules == nil
+//@   ensures int64.max.strict: result1 == nil && (fdKind(src) == 3 || fdKind(src) == 18) && vInt64(ext) != nil && typeis(vInt64(ext).LessThan, *validate.Int64Rules_Lt) ==> intOut(result0).Rules != nil && intOut(result0).Rules.Maximum != nil && *intOut(result0).Rules.Maximum == int64(as(*validate.Int64Rules_Lt, vInt64(ext).LessThan).Lt) && flagSet(intOut(result0).Rules.ExclusiveMaximum)
+//@   ensures int64.max.incl: result1 == nil && (fdKind(src) == 3 || fdKind(src) == 18) && vInt64(ext) != nil && typeis(vInt64(ext).LessThan, *validate.Int64Rules_Lte) ==> intOut(result0).Rules != nil && intOut(result0).Rules.Maximum != nil && *intOut(result0).Rules.Maximum == int64(as(*validate.Int64Rules_Lte, vInt64(ext).LessThan).Lte) && !flagSet(intOut(result0).Rules.ExclusiveMaximum)
+//@   ensures int64.max.none: result1 == nil && (fdKind(src) == 3 || fdKind(src) == 18) && vInt64(ext) != nil && vInt64(ext).LessThan == nil ==> intOut(result0).Rules != nil && intOut(result0).Rules.Maximum == nil
+//@   ensures int64.min.strict: result1 == nil && (fdKind(src) == 3 || fdKind(src) == 18) && vInt64(ext) != nil && typeis(vInt64(ext).GreaterThan, *validate.Int64Rules_Gt) ==> intOut(result0).Rules != nil && intOut(result0).Rules.Minimum != nil && *intOut(result0).Rules.Minimum == int64(as(*validate.Int64Rules_Gt, vInt64(ext).GreaterThan).Gt) && flagSet(intOut(result0).Rules.ExclusiveMinimum)
+//@   ensures int64.min.incl: result1 == nil && (fdKind(src) == 3 || fdKind(src) == 18) && vInt64(ext) != nil && typeis(vInt64(ext).GreaterThan, *validate.Int64Rules_Gte) ==> intOut(result0).Rules != nil && intOut(result0).Rules.Minimum != nil && *intOut(result0).Rules.Minimum == int64(as(*validate.Int64Rules_Gte, vInt64(ext).GreaterThan).Gte) && !flagSet(intOut(result0).Rules.ExclusiveMinimum)
+//@   ensures int64.min.none: result1 == nil && (fdKind(src) == 3 || fdKind(src) == 18) && vInt64(ext) != nil && vInt64(ext).GreaterThan == nil ==> intOut(result0).Rules != nil && intOut(result0).Rules.Minimum == nil
+//@   ensures uint32.shape: result1 == nil && fdKind(src) == 13 ==> typeis(result0, *schema_j5pb.Field_Integer) && as(*schema_j5pb.Field_Integer, result0) != nil && intOut(result0) != nil && intOut(result0).Format == schema_j5pb.IntegerField_FORMAT_UINT32
+//@   ensures uint32.list: result1 == nil && fdKind(src) == 13 ==> intOut(result0).ListRules == lUint32(ext)
+//@   ensures uint32.norules: result1 == nil && fdKind(src) == 13 && vUint32(ext) == nil ==> intOut(result0).Rules == nil
+//@   ensures uint32.max.strict: result1 == nil && fdKind(src) == 13 && vUint32(ext) != nil && typeis(vUint32(ext).LessThan, *validate.UInt32Rules_Lt) ==> intOut(result0).Rules != nil && intOut(result0).Rules.Maximum != nil && *intOut(result0).Rules.Maximum == int64(as(*validate.UInt32Rules_Lt, vUint32(ext).LessThan).Lt) && flagSet(intOut(result0).Rules.ExclusiveMaximum)
+//@   ensures uint32.max.incl: result1 == nil && fdKind(src) == 13 && vUint32(ext) != nil && typeis(vUint32(ext).LessThan, *validate.UInt32Rules_Lte) ==> intOut(result0).Rules != nil && intOut(result0).Rules.Maximum != nil && *intOut(result0).Rules.Maximum == int64(as(*validate.UInt32Rules_Lte, vUint32(ext).LessThan).Lte) && !flagSet(intOut(result0).Rules.ExclusiveMaximum)
+//@   ensures uint32.max.none: result1 == nil && fdKind(src) == 13 && vUint32(ext) != nil && vUint32(ext).LessThan == nil ==> intOut(result0).Rules != nil && intOut(result0).Rules.Maximum == nil
+//@   ensures uint32.min.strict: result1 == nil && fdKind(src) == 13 && vUint32(ext) != nil && typeis(vUint32(ext).GreaterThan, *validate.UInt32Rules_Gt) ==> intOut(result0).Rules != nil && intOut(result0).Rules.Minimum != nil && *intOut(result0).Rules.Minimum == int64(as(*validate.UInt32Rules_Gt, vUint32(ext).GreaterThan).Gt) && flagSet(intOut(result0).Rules.ExclusiveMinimum)
+//@   ensures uint32.min.incl: result1 == nil && fdKind(src) == 13 && vUint32(ext) != nil && typeis(vUint32(ext).GreaterThan, *validate.UInt32Rules_Gte) ==> intOut(result0).Rules != nil && intOut(result0).Rules.Minimum != nil && *intOut(result0).Rules.Minimum == int64(as(*validate.UInt32Rules_Gte, vUint32(ext).GreaterThan).Gte) && !flagSet(intOut(result0).Rules.ExclusiveMinimum)
+//@   ensures uint32.min.none: result1 == nil && fdKind(src) == 13 && vUint32(ext) != nil && vUint32(ext).GreaterThan == nil ==> intOut(result0).Rules != nil && intOut(result0).Rules.Minimum == nil
+//@   ensures uint64.shape: result1 == nil && fdKind(src) == 4 ==> typeis(result0, *schema_j5pb.Field_Integer) && as(*schema_j5pb.Field_Integer, result0) != nil && intOut(result0) != nil && intOut(result0).Format == schema_j5pb.IntegerField_FORMAT_UINT64
+//@   ensures uint64.list: result1 == nil && fdKind(src) == 4 ==> intOut(result0).ListRules == lUint64(ext)
+//@   ensures uint64.norules: result1 == nil && fdKind(src) == 4 && vUint64(ext) == nil ==> intOut(result0).Rules == nil
+//@   ensures uint64.max.strict: result1 == nil && fdKind(src) == 4 && vUint64(ext) != nil && typeis(vUint64(ext).LessThan, *validate.UInt64Rules_Lt) && as(*validate.UInt64Rules_Lt, vUint64(ext).LessThan).Lt <= 9223372036854775807 ==> intOut(result0).Rules != nil && intOut(result0).Rules.Maximum != nil && *intOut(result0).Rules.Maximum == int64(as(*validate.UInt64Rules_Lt, vUint64(ext).LessThan).Lt) && flagSet(intOut(result0).Rules.ExclusiveMaximum)
+//@   ensures uint64.max.incl: result1 == nil && fdKind(src) == 4 && vUint64(ext) != nil && typeis(vUint64(ext).LessThan, *validate.UInt64Rules_Lte) && as(*validate.UInt64Rules_Lte, vUint64(ext).LessThan).Lte <= 9223372036854775807 ==> intOut(result0).Rules != nil && intOut(result0).Rules.Maximum != nil && *intOut(result0).Rules.Maximum == int64(as(*validate.UInt64Rules_Lte, vUint64(ext).LessThan).Lte) && !flagSet(intOut(result0).Rules.ExclusiveMaximum)
+//@   ensures uint64.max.none: result1 == nil && fdKind(src) == 4 && vUint64(ext) != nil && vUint64(ext).LessThan == nil ==> intOut(result0).Rules != nil && intOut(result0).Rules.Maximum == nil
+//@   ensures uint64.min.strict: result1 == nil && fdKind(src) == 4 && vUint64(ext) != nil && typeis(vUint64(ext).GreaterThan, *validate.UInt64Rules_Gt) && as(*validate.UInt64Rules_Gt, vUint64(ext).GreaterThan).Gt <= 9223372036854775807 ==> intOut(result0).Rules != nil && intOut(result0).Rules.Minimum != nil && *intOut(result0).Rules.Minimum == int64(as(*validate.UInt64Rules_Gt, vUint64(ext).GreaterThan).Gt) && flagSet(intOut(result0).Rules.ExclusiveMinimum)
+//@   ensures uint64.min.incl: result1 == nil && fdKind(src) == 4 && vUint64(ext) != nil && typeis(vUint64(ext).GreaterThan, *validate.UInt64Rules_Gte) && as(*validate.UInt64Rules_Gte, vUint64(ext).GreaterThan).Gte <= 9223372036854775807 ==> intOut(result0).Rules != nil && intOut(result0).Rules.Minimum != nil && *intOut(result0).Rules.Minimum == int64(as(*validate.UInt64Rules_Gte, vUint64(ext).GreaterThan).Gte) && !flagSet(intOut(result0).Rules.ExclusiveMinimum)
+//@   ensures uint64.min.none: result1 == nil && fdKind(src) == 4 && vUint64(ext) != nil && vUint64(ext).GreaterThan == nil ==> intOut(result0).Rules != nil && intOut(result0).Rules.Minimum == nil
+//@ func Ptr
+//@   modifies fresh:result
+//@   ensures result != nil && fresh(result) && *result == val
+
+// date and decimal rules read back from the arm of (j5.ext.v1.field) the compiler writes them to
+//@ spec func decExt(e protoFieldExtensions) *ext_j5pb.DecimalField = e.j5 != nil && typeis(e.j5.Type, *ext_j5pb.FieldOptions_Decimal) ? as(*ext_j5pb.FieldOptions_Decimal, e.j5.Type).Decimal : nil
+//@ spec func dateExt(e protoFieldExtensions) *ext_j5pb.DateField = e.j5 != nil && typeis(e.j5.Type, *ext_j5pb.FieldOptions_Date) ? as(*ext_j5pb.FieldOptions_Date, e.j5.Type).Date : nil
+//@ spec func scalarProto(f FieldSchema) schema_j5pb.IsField_Type = as(*ScalarSchema, f).Proto.Type
+//@ func wktSchema
+//@   ensures decimal: result2 == nil && result1 && typeis(result0, *ScalarSchema) && typeis(scalarProto(result0), *schema_j5pb.Field_Decimal) && decExt(ext) != nil && decExt(ext).Rules != nil ==>
+//@   |   as(*schema_j5pb.Field_Decimal, scalarProto(result0)).Decimal.Rules != nil
+//@   |   && as(*schema_j5pb.Field_Decimal, scalarProto(result0)).Decimal.Rules.Minimum == decExt(ext).Rules.Minimum
+//@   |   && as(*schema_j5pb.Field_Decimal, scalarProto(result0)).Decimal.Rules.Maximum == decExt(ext).Rules.Maximum
+//@   |   && as(*schema_j5pb.Field_Decimal, scalarProto(result0)).Decimal.Rules.ExclusiveMinimum == decExt(ext).Rules.ExclusiveMinimum
+//@   |   && as(*schema_j5pb.Field_Decimal, scalarProto(result0)).Decimal.Rules.ExclusiveMaximum == decExt(ext).Rules.ExclusiveMaximum
+//@   ensures date: result2 == nil && result1 && typeis(result0, *ScalarSchema) && typeis(scalarProto(result0), *schema_j5pb.Field_Date) && dateExt(ext) != nil && dateExt(ext).Rules != nil ==>
+//@   |   as(*schema_j5pb.Field_Date, scalarProto(result0)).Date.Rules != nil
+//@   |   && as(*schema_j5pb.Field_Date, scalarProto(result0)).Date.Rules.Minimum == dateExt(ext).Rules.Minimum
+//@   |   && as(*schema_j5pb.Field_Date, scalarProto(result0)).Date.Rules.Maximum == dateExt(ext).Rules.Maximum
+//@   |   && as(*schema_j5pb.Field_Date, scalarProto(result0)).Date.Rules.ExclusiveMinimum == dateExt(ext).Rules.ExclusiveMinimum
+//@   |   && as(*schema_j5pb.Field_Date, scalarProto(result0)).Date.Rules.ExclusiveMaximum == dateExt(ext).Rules.ExclusiveMaximum
